@@ -255,5 +255,5 @@ MANIFEST = {
              "mismatching bodies to the live server compared with the extracted machine"),
     "design_ref": "DESIGN.md §4 C17",
     "note": "partial: device-to-device transfers (queue, retries) are not exercised; encryption of blobs is checked by decrypting, not modelled",
-    "technique": "Coq proof (reducer set semantics, blob/log invariant, upload machine invariant) + extracted-model correspondence on real accounts and the live server",
+    "technique": "Coq proof (reducer set semantics, blob/log invariant, upload machine invariant) + extracted-model correspondence on real accounts and the live server + two real network devices with the transfer queues running (blobs on disk vs replay of the file log on device 0, server, device 1)",
 }
